@@ -1,10 +1,12 @@
 SPECIFICATION Spec
 CONSTANTS
+  PipeIsDelimiter = TRUE
   MaxLen = 4
-  Alphabet = {1,2,3,4,5,6,7,8,9,10,11,12,13,14,15,16,17,18,19,20,21}
+  Alphabet = {1,2,3,4,5,6,7,8,9,10,11,12,13,14,15,16,17,18,19,20,21,22,23}
 INVARIANT C04_Lossless
 INVARIANT Final_NoEmptyChunk
 INVARIANT Final_BlankRunsWhole
 INVARIANT Final_BlanksPure
+INVARIANT C05_DelimitersSeparate
 PROPERTY RefinesContract
 CHECK_DEADLOCK FALSE
